@@ -1,7 +1,9 @@
 package exif2
 
 import (
+	"bufio"
 	"math"
+	"strings"
 	"time"
 
 	"github.com/evanoberholster/imagemeta/exif2/ifds"
@@ -339,13 +341,40 @@ func (ir *ifdReader) ParseString(t Tag) string {
 		return string(trimNULBuffer(ir.buffer.buf[:t.Size()]))
 	}
 	if t.IsType(tag.TypeASCII) || t.IsType(tag.TypeASCIINoNul) {
-		buf, _ := ir.readTagValue()
+		buf, err := ir.readTagValue()
+		if err == bufio.ErrBufferFull {
+			// the value is longer than the reader's look-ahead buffer: nothing was consumed, read it in pieces
+			return ir.readLongString(int(t.Size()))
+		}
+		if err != nil {
+			return ""
+		}
 		return string(trimNULBuffer(buf)) // Trim function
 	}
 	if ir.logLevelWarn() {
 		t.logTag(ir.logWarn()).Msg("Unrecognized tag type")
 	}
 	return ""
+}
+
+// longValueStep is the piece size in which values longer than the look-ahead buffer are read
+const longValueStep = 1024
+
+// readLongString reads an ASCII value of n bytes at the current position piece by piece.
+func (ir *ifdReader) readLongString(n int) string {
+	var sb strings.Builder
+	for off := 0; off < n; off += longValueStep {
+		k := n - off
+		if k > longValueStep {
+			k = longValueStep
+		}
+		buf, err := ir.fastRead(k)
+		if err != nil {
+			return ""
+		}
+		sb.Write(buf)
+	}
+	return strings.TrimRight(sb.String(), "\x00 \n")
 }
 
 // ParseBuffer parses an ASCII value.
